@@ -318,8 +318,11 @@ CHECKS["C18"] = {
             "reachable starting state that in a quarter of the cases was restored from a state file; run under the race detector in a "
             "synctest bubble (virtual time keeps timeouts cheap); oracle: no race report, no panic (recovered or logged), no bubble "
             "deadlock, the proxy still lists and deploys afterwards. Race reports are identified by the pair of innermost kamal-proxy "
-            "frames. Non-trivial = at least two operations touched the same service. Distinct by plan hash.",
-    "layers": [L("TestVF_C18", 150, 2500, race_always=True, crash_is_violation=True, qenv={"GORACE": "halt_on_error=0"}, tenv={"GORACE": "halt_on_error=0"})],
+            "frames. TestVF_C18_Hostile: one command (deploy, rollout deploy, pause, stop, rollout set) issued in a generated reachable state "
+            "with boundary argument values the CLI accepts (zero / negative durations and sizes, out-of-range percentages, hostile "
+            "messages); oracle: no panic in any goroutine (the process survives), the command returns, requests still end. Non-trivial = at least two operations touched the same service. Distinct by plan hash.",
+    "layers": [L("TestVF_C18", 150, 2500, race_always=True, crash_is_violation=True, qenv={"GORACE": "halt_on_error=0"}, tenv={"GORACE": "halt_on_error=0"}),
+               L("TestVF_C18_Hostile", 150, 2000, crash_is_violation=True)],
     "technique": "concurrency stress driven by property-based testing (rapid) under the Go race detector: generated operation lists on real goroutines, no gates",
     "level_text": "Bounded random exploration of overlapping operations; the race detector reports only pairs of accesses that were actually executed, so absence is never established.",
     "level_note": "Schedule is the Go scheduler's (not controlled, not replayable exactly); a replay re-runs the same operation lists up to 20 times.",
